@@ -63,6 +63,8 @@ type EmulOpts struct {
 	EContentType []uint64
 	// octets behind the digest inside the signed messageDigest attribute (the attribute then is not the digest of the content)
 	DigestTail []byte
+	// -nocerts -certfile other.pem: the certificates field is present but holds only these (not the signer's)
+	OnlyCerts [][]byte
 }
 
 // Emulate builds a SignedData the way the openssl CLI does (attribute kinds,
@@ -111,7 +113,42 @@ func Emulate(id gen.Identity, content []byte, o EmulOpts) ([]byte, error) {
 	if !o.NoCerts {
 		b.Certs = [][]byte{id.Cert.Raw}
 	}
+	if o.OnlyCerts != nil {
+		b.Certs = o.OnlyCerts
+	}
 	return cms.Build(id.Priv(), id.Cert, b)
+}
+
+// AddSigner merges the signer of blob b (a signature over the same content, as Emulate makes it) into blob a, the
+// way `openssl smime -sign -signer a.pem -signer b.pem` writes two signers into one SignedData: signer infos and
+// certificates of both, each SET in DER order.
+func AddSigner(a, b []byte) ([]byte, error) {
+	pa, err := der.ParseOne(a, der.Options{})
+	if err != nil {
+		return nil, err
+	}
+	pb, err := der.ParseOne(b, der.Options{})
+	if err != nil {
+		return nil, err
+	}
+	ra, rb := pa.Clone(), pb.Clone()
+	sa, err := cms.Locate(ra)
+	if err != nil {
+		return nil, err
+	}
+	sb, err := cms.Locate(rb)
+	if err != nil {
+		return nil, err
+	}
+	if len(sb.Signers) == 0 {
+		return nil, fmt.Errorf("no signer in the second blob")
+	}
+	sa.SignerSet.Children = cms.SortSetOf(append(sa.SignerSet.Children, sb.Signers[0].Node))
+	if sa.Certs != nil && sb.Certs != nil {
+		sa.Certs.Opaque, sa.Certs.Children = true, nil
+		sa.Certs.Content = append(append([]byte{}, sa.Certs.Value()...), sb.Certs.Value()...)
+	}
+	return ra.Encode(), nil
 }
 
 // SpcContent builds the SpcIndirectDataContent value octets for a digest with the library's encoder.
